@@ -405,8 +405,11 @@ def shrink(ctx, case, want_code, budget=40, want_tag=None):
 
 # ----------------------------------------------------------------------------
 def write_evidence(pid, ev):
-    os.makedirs(os.path.join(VERIF, "evidence"), exist_ok=True)
-    with open(os.path.join(VERIF, "evidence", pid + ".json"), "w") as f:
+    # evidence/ describes runs against /repo itself; a run against another tree (VERIF_REPO: mutation and seeded-change
+    # trials) leaves it alone and writes under .build/
+    d = os.path.join(VERIF, "evidence") if os.path.realpath(REPO) == "/repo" else os.path.join(BUILD, "evidence_other_tree")
+    os.makedirs(d, exist_ok=True)
+    with open(os.path.join(d, pid + ".json"), "w") as f:
         json.dump(ev, f, indent=1, sort_keys=True)
         f.write("\n")
 
